@@ -902,6 +902,10 @@ class Run:
             b = self.peek_or_end(hint)
             nd = [RX.deriv(d, b) if (d != RX.EMPTY and b is not None) else RX.EMPTY for d in ds]
             if any(d != RX.EMPTY for d in nd):
+                if any(d != RX.EMPTY and RX.nullable(d) for d in ds):
+                    # a clause is complete as the input stands, yet the case goes on: the compiled machine has already run that clause's
+                    # leading actions (known finding F-01k / F-08a)
+                    self.tags.add("case-provisional-match")
                 self.consume()
                 consumed += 1
                 ds = nd
